@@ -65,8 +65,12 @@ THEOREMS = [
     "Jinns.Holds.evalSingle_spec",
     "Jinns.Holds.holdsC12_model",
     "Jinns.Holds.evalSingle_accepts",
+    "Jinns.Holds.sysDyn_spec",
+    "Jinns.Holds.consSum_spec",
+    "Jinns.Holds.sysEvaluate_spec",
+    "Jinns.Holds.holdsC12Sys_model",
 ]
-LEAN_MODULES = ["JinnsProofs.C12"]
+LEAN_MODULES = ["JinnsProofs.C12", "JinnsProofs.C13"]
 RULE = ("cases = (loss kind, dims, keys with shapes, batched subset, B, observed keys, heterogeneity declaration, "
         "configured terms, seed); observable = (total, terms) of the real evaluate, exactly, plus the same call with "
         "the caller's values of the batched keys perturbed; non-trivial = at least one key is batched or observed or "
@@ -119,13 +123,14 @@ def compose(poly, subs, n_out):
 
 
 def rand_poly(rng, n, deg, nterms, must=(), cmax=2):
-    """random integer polynomial in n variables containing every variable of `must`"""
-    from harness.polynet import monomials
-
-    ms = [e for e in monomials(n, deg)]
+    """random integer polynomial in n variables (total degree <= deg) containing every variable of `must`"""
     c = {}
-    for e in rng.sample(ms, min(nterms, len(ms))):
-        c[e] = nz_int(rng, cmax)
+    for _ in range(nterms):
+        e = [0] * n
+        for _ in range(rng.randint(0, deg)):
+            if n:
+                e[rng.randrange(n)] += 1
+        c[tuple(e)] = nz_int(rng, cmax)
     for j in must:
         if not any(e[j] > 0 for e in c):
             e = [0] * n
@@ -248,7 +253,7 @@ def build(case):
                     for kd in keys:
                         if kd["name"] == name and kd["shape"] == "(k,)" and what == "fn_same":
                             size = kd["k"]
-                    h.append((name, [rand_poly(rng, din + K, 2, 3, must=[0] + ([slot_vars[-1]] if K else []))
+                    h.append((name, [rand_poly(rng, din + K, 1, 2, must=[0] + ([slot_vars[-1]] if K else []), cmax=1)
                                      for _ in range(size)]))
             pr["het"][e] = h
 
@@ -324,6 +329,64 @@ def residual_fn(pr, e):
             for j in range(din):
                 subs.append(ups[c].d(j))
     return [compose(r, subs, n) for r in pr["residuals"][e]]
+
+
+def exact_ok(pr):
+    """Generator-side guard: a rigorous bound on |residual| (absolute coefficients at the largest absolute
+    values of the variables, heterogeneity maps composed in) must keep every float64 intermediate of the real
+    code exact: bound^2 * 2^(2*degree + 4) < 2^52 (all inputs are half-integers)."""
+    din, K = pr["din"], pr["K"]
+    n = din + K
+    names = [k for k, _ in pr["params"]]
+    cmax = max([abs(x) for r in pr["pts"] for x in r] + [Fraction(1)])
+    smax = []
+    for k, v in pr["params"]:
+        rd = pr["readers"][k]
+        vals = [abs(sum(Fraction(c) * x for c, x in zip(rd, v)))]
+        for rows in [pr["param_rows"] or []]:
+            for kk, rs in rows:
+                if kk == k:
+                    vals += [abs(rd[0] * r[0]) for r in rs]
+        smax.append(max(vals + [Fraction(1)]))
+    maxv = [cmax] * din + smax
+    for e in pr["eqs"]:
+        if pr["residuals"][e] is None:
+            continue
+        comp = residual_fn(pr, e)
+        h = pr["het"][e]
+        if h is not None:
+            subs = [P.var(n, j) for j in range(n)]
+            for k, polys in h:
+                if polys is None or k not in names:
+                    continue
+                j = names.index(k)
+                rd = pr["readers"][k]
+                acc = P(n)
+                for i, hp in enumerate(polys):
+                    acc = acc + hp * rd[i]
+                subs[din + j] = acc
+            comp = [compose(c, subs, n) for c in comp]
+        for c in comp:
+            bound, deg = Fraction(0), 0
+            for ex, co in c.c.items():
+                t = abs(co)
+                for x, kk in zip(maxv, ex):
+                    t *= x ** kk
+                bound += t
+                deg = max(deg, sum(ex))
+            if bound * bound * (4 ** deg) * 16 >= 2 ** 52:
+                return False
+    return True
+
+
+def settle_seed(case):
+    """the first seed >= case['seed'] whose problem passes the exactness guard"""
+    c = dict(case)
+    for _ in range(200):
+        if exact_ok(build(c)):
+            return c
+        c["seed"] += 1
+    raise RuntimeError("no exact instance found for " + repr(case))
 
 
 def single_json(pr, u, weights, with_dyn, param_rows_json, unit=False):
@@ -500,10 +563,10 @@ def make_world(case, pr=None):
 
     nets = {u: make_pinn(pr["nets"][u], eqtype, input_transform=it) for u in unknowns}
 
-    def sub_params(params, u):
-        return params.extract_params(u) if issys else params
-
-    def make_eq(e):
+    def make_eq(e, plain_for=None):
+        """the user's dynamic loss of equation e; `plain_for=u`: the same equation written for a plain
+        (non-system) loss on unknown u (one-equation one-unknown systems)"""
+        as_sys = issys and plain_for is None
         comps = pr["residuals"][e]
         hetd = pr["het"][e]
 
@@ -521,7 +584,7 @@ def make_world(case, pr=None):
             # (coords, slots, [u, du] per unknown): every parameter and every network is read
             parts = [coords, slots(params)]
             for u in unknowns:
-                pk = sub_params(params, u)
+                pk = params.extract_params(u) if as_sys else params
                 fn = lambda z, u=u, pk=pk: udict[u](*split(z), pk)
                 parts.append(fn(coords))
                 parts.append(jax.jacfwd(fn)(coords).ravel())
@@ -531,17 +594,17 @@ def make_world(case, pr=None):
         if base == "ode":
             class Eq(ODE):
                 def equation(self, t, u, params):
-                    ud = u if issys else {"u": u}
+                    ud = u if as_sys else {(plain_for or "u"): u}
                     return resid(jnp.atleast_1d(t).ravel(), ud, params, lambda z: (z,))
         elif base == "statio":
             class Eq(PDEStatio):
                 def equation(self, x, u, params):
-                    ud = u if issys else {"u": u}
+                    ud = u if as_sys else {(plain_for or "u"): u}
                     return resid(x, ud, params, lambda z: (z,))
         else:
             class Eq(PDENonStatio):
                 def equation(self, t, x, u, params):
-                    ud = u if issys else {"u": u}
+                    ud = u if as_sys else {(plain_for or "u"): u}
                     return resid(jnp.concatenate([t, x]), ud, params, lambda z: (z[0:1], z[1:]))
         return Eq(Tmax=1, eq_params_heterogeneity=het)
 
@@ -625,7 +688,32 @@ def make_world(case, pr=None):
         return kw
 
     world = {"pr": pr, "params": params, "params_alt": params_alt, "batch": batch, "nets": nets,
-             "make_eq": make_eq, "cons_kwargs": cons_kwargs, "obs_dict": obs_dict}
+             "make_eq": make_eq, "cons_kwargs": cons_kwargs, "obs_dict": obs_dict, "eq_params": eqp}
+
+    def single_loss(u, dyn, weights):
+        """a real single loss on unknown u (weights: dict term -> float), with its params and batch"""
+        kw = cons_kwargs(u)
+        pu = Params(nn_params=nets[u].init_params(), eq_params=eqp)
+        if base == "ode":
+            w = {k: weights.get(k, 1.0) for k in ("dyn_loss", "initial_condition", "observations")}
+            L = LossODE(u=nets[u], dynamic_loss=dyn, loss_weights=LossWeightsODE(**w), params=pu, **kw)
+        elif base == "statio":
+            w = {k: weights.get(k, 1.0) for k in ("dyn_loss", "norm_loss", "boundary_loss", "observations")}
+            L = LossPDEStatio(u=nets[u], dynamic_loss=dyn, loss_weights=LossWeightsPDEStatio(**w), params=pu, **kw)
+        else:
+            w = {k: weights.get(k, 1.0) for k in ("dyn_loss", "norm_loss", "boundary_loss", "observations",
+                                                  "initial_condition")}
+            L = LossPDENonStatio(u=nets[u], dynamic_loss=dyn, loss_weights=LossWeightsPDENonStatio(**w),
+                                 params=pu, **kw)
+        bu = batch
+        if issys:
+            import dataclasses
+            fields = {f.name: getattr(batch, f.name) for f in dataclasses.fields(batch)}
+            fields["obs_batch_dict"] = obs_dict(u)
+            bu = type(batch)(**fields)
+        return L, pu, bu
+
+    world["single_loss"] = single_loss
 
     def fl(x):
         return float(x)
@@ -732,7 +820,7 @@ def gen_cases(rng, tier):
 
     def add(**kw):
         kw.setdefault("seed", rng.randrange(1 << 30))
-        cases.append(kw)
+        cases.append(settle_seed(kw))
 
     singles = ["ode", "statio", "nonstatio"]
     # (1) every subset of the keys batched, for every loss kind
@@ -790,7 +878,7 @@ def gen_cases(rng, tier):
     return cases
 
 
-def shrink_candidates(case):
+def _shrink(case):
     c = dict(case)
     if case.get("het"):
         yield {**c, "het": None}
@@ -821,6 +909,11 @@ def shrink_candidates(case):
             if cc.get("het"):
                 cc["het"] = {n: v for n, v in cc["het"].items() if n in names or n == "zz"}
             yield cc
+
+
+def shrink_candidates(case):
+    for cand in _shrink(case):
+        yield settle_seed(cand)
 
 
 def run_impl(case):
@@ -899,6 +992,6 @@ def widen(rng, bad_cases):
     out = []
     for c in bad_cases:
         for _ in range(6):
-            out.append({**c, "seed": rng.randrange(1 << 30)})
+            out.append(settle_seed({**c, "seed": rng.randrange(1 << 30)}))
         out.extend(shrink_candidates(c))
     return out
